@@ -50,8 +50,19 @@ def observe(op, pair):
     a, b = pair
     try:
         if op == 'C01s':
-            return V.compare_strings(a, b)
-        return V.compare_versions(a, b)
+            r = V.compare_strings(a, b)
+            # the sort key built on it orders the two components the same way
+            ka, kb = V.compare_strings_key(a), V.compare_strings_key(b)
+            if [ka < kb, ka == kb, ka > kb] != [r < 0, r == 0, r > 0]:
+                return Exc('KeyDisagrees')
+            return r
+        r = V.compare_versions(a, b)
+        # the other two entry points of the same comparison: the method and the sort key
+        va, vb = V.Version.from_string(a), V.Version.from_string(b)
+        ka, kb = V.compare_versions_key(a), V.compare_versions_key(b)
+        if va.compare(vb) != r or V.compare_versions(va, vb) != r or [ka < kb, ka == kb, ka > kb] != [r < 0, r == 0, r > 0]:
+            return Exc('EntryPointsDisagree')
+        return r
     except Exception as e:
         return Exc(type(e).__name__)
 
